@@ -179,6 +179,17 @@ def gen_case(rng):
             files[pstr(p)] = [p, normalise(body)]
     main = ["src", "a.c"]
     body = decorate(rng, gen_body(rng, names, 0, 20), ["src"])
+    if rng.random() < 0.2:
+        # a header that re-enters itself a bounded number of times: every inclusion is processed
+        # under the macro state at that point and what it defines is visible afterwards
+        d = rng.choice(DIRS[:3])
+        it = d + ["iter.h"]
+        files[pstr(it)] = [it, [["If", ["NDefd", "IT1"]], ["Def", "IT1", "E"], ["Inc", ["Q", ["iter.h"]]], ["Code"],
+                                ["Elif", ["NDefd", "IT2"]], ["Def", "IT2", "E"], ["Inc", ["Q", ["iter.h"]]],
+                                ["Else"], ["Def", "IT3", "E"], ["Code"], ["Endif"]]]
+        pos = rng.randint(0, len(body))
+        body = body[:pos] + [["Inc", ["Q", [".."] + it if d != ["src"] else ["iter.h"]]],
+                             ["If", ["Defd", "IT3"]], ["Code"], ["Else"], ["Code"], ["Endif"]] + body[pos:]
     # make sure the main file includes something
     body = gen_plain(rng, names)[:0] + [["Inc", [rng.choice(["Q", "A"]), rng.choice(names)]]] + body
     for m in FLAGS:
